@@ -1,6 +1,7 @@
 #![allow(dead_code, unused_imports, unused_variables)]
 mod backend;
 mod engine;
+mod fault;
 mod engine_handles;
 mod engine_ops;
 mod gen;
